@@ -1,2 +1,2 @@
 #!/bin/bash
-cd /repo && git checkout -- . && git clean -fdq && git status --short
+cd /repo && git reset -q --hard HEAD && git clean -fdq && git status --short
